@@ -82,6 +82,11 @@ CHECKS['C16'] = ('fault_enumeration', 'bounded exhaustive enumeration of collect
     'and no record of any aborted activity (or its sub-activities) may follow the end of the call.',
     'Trusts the model in vk/checks/c16.py; one open known finding (failure while the consumer of first() is in its loop body).',
     'DESIGN.md section 3 C16')
+CHECKS['C20'] = ('exploration', 'complete enumeration of the (operation, immediately-completable state) table x competitors x actor position on the real kernel; activation-span monitor',
+    'For every operation the property lists and every state in which it can complete without waiting (38 rows, ~90 judged operations), next to 1 and 2 competing runnable activities and with the actor spawned first and last, '
+    'the operation must span at least two activations of the loop (whose FIFO order is monitored on every execution) or advance the clock, and every competitor that is queued at that moment must get a turn before it completes.',
+    'Completeness of the table is by construction from the property text and the anchors; rows for a closed-and-empty stream and a free Lock are deliberately absent.',
+    'DESIGN.md section 3 C20')
 PENDING = {}
 
 def main():
